@@ -293,7 +293,21 @@ impl Scenario for Stream {
             spec.m = rng.range(16_500, 30_000) as usize;
             n = rng.range(300, 3000) as usize;
         }
-        let items = gen_items(rng, n, spec.elem);
+        let mut items = gen_items(rng, n, spec.elem);
+        if spec.kind.is_f32_dens() && spec.m <= 16 && rng.chance(0.2) {
+            // items known to tie exactly (same bin, same f32 value): the legitimate order dependence of the
+            // densified sketchers, and the place where tie handling of different code paths must agree
+            let ties = f32_tie_pairs(&spec);
+            if !ties.is_empty() {
+                let mut set: BTreeSet<u64> = items.iter().copied().collect();
+                for _ in 0..rng.urange(1, 2) {
+                    let (a, b) = *rng.pick(&ties);
+                    set.insert(a);
+                    set.insert(b);
+                }
+                items = set.into_iter().collect();
+            }
+        }
         let mut events;
         if spec.kind.is_dens() {
             if rng.chance(0.5) {
